@@ -38,10 +38,19 @@ func SentinelMiddleware(opts ...Option) ghttp.HandlerFunc {
 
 		defer entry.Exit()
 
+		// goframe keeps one error per request. One that an earlier middleware has noted there is not the
+		// handler's: it is set aside while the handler runs, so that what is found afterwards is the
+		// handler's own, and put back when the handler has left none.
+		earlier := r.GetError()
+		if earlier != nil {
+			r.SetError(nil)
+		}
 		r.Middleware.Next()
 		// goframe keeps the error a handler returned (and a recovered handler panic) on the request
 		if err := r.GetError(); err != nil {
 			api.TraceError(entry, err)
+		} else if earlier != nil {
+			r.SetError(earlier)
 		}
 	}
 }
